@@ -59,7 +59,7 @@ impl<M: RawMutex + 'static> Sys<M> {
     fn invariants(&mut self, out: &mut StepOut) {
         let (na, nf) = harness::take_alloc_counts();
         if na + nf > 0 {
-            out.v("C18", "alloc-in-call", format!("{} allocations / {} frees inside library calls of this step", na, nf));
+            out.p("C18", "alloc-in-call", format!("{} allocations / {} frees inside library calls of this step", na, nf));
         }
         let snap = self.event.verif_snapshot();
         let live = self.live_nodes();
@@ -69,10 +69,10 @@ impl<M: RawMutex + 'static> Sys<M> {
         for (i, s) in self.slots.iter().enumerate() {
             if let Some(s) = s {
                 if s.fut.get().is_terminated() != s.meta.done {
-                    out.v("C17", "is-terminated", format!("slot {}: is_terminated()={} but completed={}", i, s.fut.get().is_terminated(), s.meta.done));
+                    out.p("C17", "is-terminated", format!("slot {}: is_terminated()={} but completed={}", i, s.fut.get().is_terminated(), s.meta.done));
                 }
                 if s.meta.pending() && s.latched && !fresh(G, i, &s.meta) {
-                    out.v("C14", "set-did-not-wake", format!("slot {}: set() was called while this waiter was pending but it has not been woken through the waker of its latest poll", i));
+                    out.p("C14", "set-did-not-wake", format!("slot {}: set() was called while this waiter was pending but it has not been woken through the waker of its latest poll", i));
                 }
             }
         }
